@@ -15,11 +15,21 @@ inputs = [int(x) for x in txt.splitlines()[0].split()]
 mod = importlib.import_module("props." + pid)
 for tier in ("quick", "thorough"):
     for u in mod.units(tier):
-        if u.name == uname and u.kind == "cbmc":
+        if u.name == uname:
             for e in u.entries:
                 if e.name == ename:
-                    w = Work(); v = CbmcVariant(w, u)
-                    verdict, what, rf = replay_native(v, e, inputs, w, "r")
+                    w = Work()
+                    if u.kind == "cbmc":
+                        v = CbmcVariant(w, u)
+                    else:
+                        import hashlib
+                        tag = hashlib.sha1((" ".join(u.defines) + u.name).encode()).hexdigest()[:8]
+                        v = runner._SmtNative(w, u, w.path("%s_%s" % (u.name, tag)))
+                    verdict, what = "not_reproduced", ""
+                    for attempt in range(getattr(u, "replay_repeat", 1)):
+                        verdict, what, rf = replay_native(v, e, inputs, w, "r")
+                        if verdict == "reproduced":
+                            break
                     print(verdict, what)
                     sys.exit(1 if verdict == "reproduced" else 0)
 print("unit/entry not found"); sys.exit(2)
